@@ -548,10 +548,12 @@ class C14(Check):
         n = 0
         maxK, maxL = (5, 4)
         reps = 2 if self.tier == "quick" else 10
-        for K in range(2, maxK + 1):
-            for L in range(1, maxL + 1):
+        # (K, L) exhaustively up to (5, 4), and a few networks with many layers (two-digit layer ids)
+        shapes = [(K, L) for K in range(2, maxK + 1) for L in range(1, maxL + 1)] + [(2, 10), (2, 11), (3, 12), (2, 25)]
+        for K, L in shapes:
+            if True:
                 for assort in (False, True):
-                    for _ in range(reps):
+                    for _ in range(reps if L <= maxL else 1):
                         diag = [[round(rng.random() * rng.choice([1, 1, 10]), 5) for _ in range(K)] for _ in range(L)]
                         if rng.random() < 0.12:
                             # a file of zeros is a file: every realization starts from noise alone, on and off the diagonal
@@ -880,6 +882,8 @@ class C16(Check):
                    "-1", "-0.05", "1e-7", "3e9", "2147483648", "1e19"]
         for k in range(n):
             K, L = rng.randint(2, 3), rng.randint(1, 3)
+            if k % 6 == 5:
+                K = rng.choice([40, 85, 90, 100, 101, 128])    # many groups: wide rows in the membership files
             recs, L = gen.records(rng, wt="u", N=rng.randint(3, 5), L=L, nrec=rng.randint(2, 6), heavy=False)
             undirected, assort = rng.random() < 0.4, rng.random() < 0.4
             mode = rng.choice(["one", "one", "row", "all", "none"])
